@@ -22,7 +22,7 @@ def run(tier, pid="C24"):
         jobs = [("par", th, chk.seed * 100 + k, 6 if quick else 60) for k, th in enumerate([2, 3, 4, 6, 8] if quick else [2, 3, 4, 5, 6, 7, 8] * 4)]
         jobs += [("num", th, chk.seed * 100 + 50 + k, 4 if quick else 40) for k, th in enumerate([2, 4, 8] if quick else [2, 3, 4, 6, 8] * 3)]
     else:
-        jobs = [(m, 2, chk.seed * 100 + k, 25 if quick else 300) for k, m in enumerate(["stop", "gstop"] * (2 if quick else 8))]
+        jobs = [(m, 2, chk.seed * 100 + k, 36 if quick else 300) for k, m in enumerate(["stop", "gstop"] * (2 if quick else 8))]
     procs = []
     env = dict(os.environ, TSAN_OPTIONS="halt_on_error=0:exitcode=66:second_deadlock_stack=1")
     for mode, th, seed, rounds in jobs:
